@@ -69,6 +69,21 @@ add("K2b", "C01", "open", "inline fragment whose type condition is the enclosing
     document="query Q { me { ... on User { name } } node { __typename ... on Node { id } } }\n",
     vectors={"C01": [resp("w1", "Q", {"me": {"name": "n"}, "node": {"__typename": "Dog", "id": "3"}}, {"me": {"name": "n"}, "node": {"__typename": "Dog", "id": "3"}})]})
 
+
+# ---- found by C02 / C04 / C06 machinery
+add("F3", "C02", "fixed", "tagged enums (unions / interfaces) and @oneOf enums lacked #[serde(crate = ..)]: the derive did not compile in a consumer whose only dependency is graphql_client",
+    commit="aa10e44", document="query Q { pet { __typename ... on Dog { barks } } }\n", extra={"form": "derive-noserde"}, options={"mode": "derive", "response_derives": "Debug"})
+add("F13", "C19", "fixed", "`generate --module-visibility private` emitted `pub(private) mod ..` (E0704)", commit="bea772d", engine="C")
+add("F14", "C02", "fixed", "a variable of type ID under normalization = \"rust\" referred to an undefined type `Id`",
+    commit="bd6faee", document="query Q($id: ID!, $ids: [ID!]) { x }\n", options={"normalization": "rust"}, also=["C09", "C04"],
+    vectors={"C04": [{"id": "w1", "kind": "vars", "target": "Q", "input": {"id": "7", "ids": ["a"]}, "expect": {"variables": {"id": "7", "ids": ["a"]}}}]})
+add("F10", "C07", "fixed", "introspection JSON front-end ignored `isOneOf`: @oneOf inputs became all-optional structs (invalid on the wire)", commit="ff359bf", engine="A", also=["C04"])
+add("F7", "C06", "fixed", "a type condition that can never apply under an object parent (`me { ... on Dog {..} }`, me: User) was accepted",
+    commit="560f597", engine="A", extra={"schema": BASE, "document": "query Q { me { ... on Dog { barks } } }\n"})
+add("K8", "C06", "open", "a field of object type selected without a sub-selection (`query Q { me }`) is accepted and yields an empty response type; "
+    "not repairable as a fix: the repository's own fixture tests/input_object_variables/input_object_variables_query.graphql relies on it",
+    hazard="K8", symptoms=[r"^accepted E3: no-subselection"], engine="A", extra={"schema": BASE, "document": "query Q { me }\n", "rule": "E3", "label": "no-subselection@op:Q/me"})
+
 out = os.path.join(os.path.dirname(os.path.dirname(os.path.abspath(__file__))), "known_findings.json")
 with open(out, "w") as f:
     json.dump({"comment": "written by tools/mk_known.py at authoring time; never written by a check", "findings": F}, f, indent=1)
